@@ -176,6 +176,7 @@ def _ackermann(fname, terms, outs):
         else:
             ENG.assumes.append(z3.Implies(z3.And(*prem), z3.And(*concl)))
     reg.append((list(terms), list(outs)))
+    ENG.records.setdefault('ack_order', []).append((fname, list(terms), list(outs)))
 
 
 def uf1(name, x, positive_out=False, nonneg_out=False):
@@ -515,3 +516,40 @@ def witness_hyps(hyps):
             return None
         m = s.model()
     return out
+
+
+def uf_point_assignment(k=0, input_hyps=()):
+    """hypotheses giving every uninterpreted-function result created so far on this path a dyadic value that is a
+    deterministic function of (function, evaluated arguments): respects congruence by construction.  Together with an
+    assignment of the inputs (input_hyps: list of `var == value` equalities) the solver then only has to EVALUATE the
+    obligation at that point.  Returns the hypotheses for the function results (None if an argument does not evaluate)."""
+    import hashlib
+    subs = []
+    for h in input_hyps:
+        h = core.tob(h)
+        if z3.is_eq(h):
+            a, b = h.arg(0), h.arg(1)
+            if z3.is_const(b) and b.decl().kind() == z3.Z3_OP_UNINTERPRETED:
+                a, b = b, a
+            subs.append((a, b))
+    hyps = []
+    table = {}
+    for fname, terms, outs in ENG.records.get('ack_order', []):
+        vals = []
+        for t in terms:
+            v = z3.simplify(z3.substitute(t, *subs)) if subs else z3.simplify(t)
+            if not (z3.is_rational_value(v) or z3.is_int_value(v)):
+                return None
+            vals.append(str(v))
+        key = (fname, tuple(vals))
+        if key not in table:
+            row = []
+            for j in range(len(outs)):
+                hsh = int(hashlib.sha1(('%s|%s|%d|%d' % (fname, vals, j, k)).encode()).hexdigest()[:6], 16)
+                row.append(Fraction((hsh % 1021) + 1, 256))
+            table[key] = row
+        for o, val in zip(outs, table[key]):
+            rv = z3.RealVal(str(val))
+            hyps.append(o == rv)
+            subs.append((o, rv))
+    return hyps
